@@ -474,4 +474,111 @@ example : FreshOK exTsF exReg exFrF := ⟨by decide, by decide, by decide⟩
 example : exTsF.Pairwise fun a b => a.host = b.host → a.host = "" := by decide
 example : ∀ n ∈ somes exFrF, n ∉ hosts exTsF := by decide
 
+/-! ## a tunnel removed (UnpublishTunnel / ReleaseTunnel) while the sync waits for an RPC
+
+The sync assigns on a private copy of the tunnel list, so a removal that arrives in the middle only
+edits the live configuration; the properties above hold for the outcome of such a sync unchanged. -/
+
+/-- `tunnelRemovalWrapper` only deletes: what is left is a sublist of the configuration. -/
+theorem removeHost_sublist (h : String) (ts : List Tunnel) : (removeHost h ts).Sublist ts := by
+  induction ts with
+  | nil => simp [removeHost]
+  | cons t ts ih =>
+    simp only [removeHost]
+    split
+    · exact List.sublist_cons_self t ts
+    · exact ih.cons_cons t
+
+/-- it deletes exactly one tunnel carrying `h` if there is one, and nothing otherwise -/
+theorem removeHost_length (h : String) (ts : List Tunnel) :
+    (removeHost h ts).length = if h ∈ hosts ts then ts.length - 1 else ts.length := by
+  induction ts with
+  | nil => simp [removeHost, hosts]
+  | cons t ts ih =>
+    by_cases ht : t.host = h
+    · simp [removeHost, ht, hosts]
+    · have hne : ¬ h = t.host := fun e => ht e.symm
+      have hmem : (h ∈ hosts (t :: ts)) ↔ (h ∈ hosts ts) := by simp [hosts, hne]
+      by_cases hm : h ∈ hosts ts
+      · have hpos : 0 < ts.length := by
+          rcases List.mem_map.mp hm with ⟨u, hu, _⟩
+          exact List.length_pos_of_mem hu
+        have hm' : h ∈ hosts (t :: ts) := hmem.mpr hm
+        simp only [removeHost, ht, if_false, List.length_cons, ih, hm, hm', if_true]
+        omega
+      · have hm' : ¬ h ∈ hosts (t :: ts) := fun x => hm (hmem.mp x)
+        simp only [removeHost, ht, if_false, List.length_cons, ih, hm, hm']
+
+/-- Snapshot isolation: with the registered hostnames known, a removal arriving at ANY RPC of the sync,
+for ANY hostname, leaves the sync's outcome (tunnel list written back, GenerateHostname calls,
+hostnames published) exactly that of the undisturbed sync. -/
+theorem syncRm_known (ts : List Tunnel) (reg : List String) (fr : List (Option String)) (pt : Point) (h : String) :
+    (syncRm ts (some reg) fr pt h).res = sync ts (some reg) fr := by
+  unfold syncRm
+  simp only
+  by_cases hr : reached (sync ts (some reg) fr) pt <;> simp [hr]
+
+/-- the live configuration right after the removal is the configured list minus (at most) that tunnel:
+the later tunnels are neither duplicated nor changed -/
+theorem syncRm_mid (ts : List Tunnel) (reg : Option (List String)) (fr : List (Option String)) (pt : Point) (h : String)
+    (m : List Tunnel) (hm : (syncRm ts reg fr pt h).mid = some m) : m = removeHost h ts := by
+  unfold syncRm at hm
+  simp only at hm
+  by_cases hr : reached (sync ts reg fr) pt
+  · cases reg <;> simp [hr] at hm <;> exact hm.symm
+  · simp [hr] at hm
+
+/-- The statement for a sync disturbed by a removal (failing requests allowed): the registered list is a
+set, generated names are new, the configuration lists no hostname twice => whenever and whatever is
+removed meanwhile, a non-empty hostname of the resulting list is carried by exactly one tunnel. -/
+theorem no_shared_hostname_rm (ts : List Tunnel) (reg : List String) (fr : List (Option String))
+    (pt : Point) (h : String)
+    (hreg : reg.Nodup) (hf : FreshOK ts reg fr)
+    (hcfg : ts.Pairwise fun a b => a.host = b.host → a.host = "")
+    (i j : Nat) (hij : i ≠ j)
+    (hi : i < (syncRm ts (some reg) fr pt h).res.out.length) (hj : j < (syncRm ts (some reg) fr pt h).res.out.length)
+    (hni : (syncRm ts (some reg) fr pt h).res.out[i].host ≠ "") :
+    (syncRm ts (some reg) fr pt h).res.out[i].host ≠ (syncRm ts (some reg) fr pt h).res.out[j].host := by
+  have e := syncRm_known ts reg fr pt h
+  have key : ∀ (r : Result), r = sync ts (some reg) fr → ∀ (hi : i < r.out.length) (hj : j < r.out.length),
+      r.out[i].host ≠ "" → r.out[i].host ≠ r.out[j].host := by
+    intro r hr; subst hr
+    exact fun hi hj hni => no_shared_hostname_faulty ts reg fr hreg hf hcfg i j hij hi hj hni
+  exact key _ e hi hj hni
+
+/-- ... and with no failing request every tunnel with a target is named (clean form, as `no_shared_hostname`) -/
+theorem every_target_named_rm (ts : List Tunnel) (reg : List String) (fr : List (Option String))
+    (pt : Point) (h : String)
+    (hcfg : ∀ n ∈ somes fr, n ∉ hosts ts) (hok : ∀ x ∈ fr, x ≠ none)
+    (hlen : needy ts ≤ (available ts reg).length + fr.length) :
+    ∀ t' ∈ (syncRm ts (some reg) fr pt h).res.out, t'.target ≠ "" → t'.host ≠ "" := by
+  rw [syncRm_known]
+  exact every_target_named ts reg fr hcfg hok hlen
+
+/-- RegisteredHostnames failed (early return): the configuration afterwards is the configured list minus
+at most the removed tunnel, so a configuration without a shared hostname stays one. -/
+theorem syncRm_unknown (ts : List Tunnel) (fr : List (Option String)) (pt : Point) (h : String) :
+    (syncRm ts none fr pt h).res.out.Sublist ts ∧
+    ∀ R : Tunnel → Tunnel → Prop, ts.Pairwise R → (syncRm ts none fr pt h).res.out.Pairwise R := by
+  have hs : (syncRm ts none fr pt h).res.out.Sublist ts := by
+    unfold syncRm
+    simp only
+    by_cases hr : reached (sync ts none fr) pt
+    · simp [hr]; exact removeHost_sublist h ts
+    · have hr' : reached (sync ts none fr) pt = false := by simpa using hr
+      simp only [hr', Bool.not_false, if_true]
+      simp [sync]
+  exact ⟨hs, fun R hR => hR.sublist hs⟩
+
+/-! ### non-vacuity: the middle tunnel is unpublished while the sync waits for RegisteredHostnames -/
+example : syncRm exTs (some exReg) exFr .reg "kept" =
+    { res := sync exTs (some exReg) exFr,
+      mid := some [⟨"tcp://a", ""⟩, ⟨"", ""⟩, ⟨"tcp://c", ""⟩, ⟨"tcp://d", "my.custom.com"⟩] } := by decide
+/-- a point the sync never reaches: nothing is removed -/
+example : (syncRm exTs (some exReg) exFr (.gen 1) "kept").mid = none := by decide
+example : (syncRm exTs (some exReg) exFr (.gen 0) "kept").mid = some (removeHost "kept" exTs) := by decide
+example : (syncRm exTs none exFr .reg "kept").res.out =
+    [⟨"tcp://a", ""⟩, ⟨"", ""⟩, ⟨"tcp://c", ""⟩, ⟨"tcp://d", "my.custom.com"⟩] := by decide
+example : removeHost "nope" exTs = exTs := by decide
+
 end Specter.C43
